@@ -1,6 +1,7 @@
 package eb
 
 import (
+	"bytes"
 	"crypto/sha1"
 	"encoding/json"
 	"fmt"
@@ -524,6 +525,36 @@ func (cl *cluster) apply(ev string) {
 		cl.killXfer = true
 		cl.nFaults++
 		cl.observe("XferKill armed")
+	case "Ahead":
+		// pre-history (InitOps only): two writes that were in flight reached the real replica of node <i> and nobody else,
+		// and were never acknowledged: its revision counter is now ahead of the others', its chain has the same names
+		i := atoi(f[1])
+		buf := bytes.Repeat([]byte{0xEE}, Block)
+		srv := cl.nodes[i].(*RealNode).Server()
+		opened := false
+		if _, err := srv.WriteAt(buf, Block); err != nil { // out of service and closed: the writes landed before it closed
+			if err := srv.Open(); err != nil {
+				panic(fmt.Sprintf("harness: Ahead:%d: open: %v", i, err))
+			}
+			opened = true
+			if _, err := srv.WriteAt(buf, Block); err != nil {
+				panic(fmt.Sprintf("harness: Ahead:%d: %v", i, err))
+			}
+		}
+		if _, err := srv.WriteAt(buf, 2*Block); err != nil {
+			panic(fmt.Sprintf("harness: Ahead:%d: %v", i, err))
+		}
+		if opened {
+			srv.Close()
+		}
+		cl.observe("%s", ev)
+	case "AgentRestart":
+		// the sync agent that runs the next snapshot-file sender dies with it and comes back (empty process table, ids
+		// from 1 again); the status poll that follows is refused, the ones after that reach the new agent, which by then
+		// has run unrelated transfers under the same ids
+		cl.restartAgent = true
+		cl.nFaults++
+		cl.observe("AgentRestart armed")
 	case "XferFail":
 		// the next snapshot-file transfer of the running rebuild dies half way
 		cl.failXfer = true
